@@ -87,7 +87,9 @@ impl<R: Round, const B: Word> FBig<R, B> {
         if self.repr.exponent >= 0 {
             return (self, Self::ZERO);
         } else if self.repr.smaller_than_one() {
-            return (Self::ZERO, self);
+            // same precision as `fract()`: the number of fractional digits
+            let shift = (-self.repr.exponent) as usize;
+            return (Self::ZERO, FBig::new(self.repr, Context::new(shift)));
         }
 
         let shift = (-self.repr.exponent) as usize;
